@@ -307,14 +307,23 @@ Proof.
   rewrite (recuperate_macro t k e Hin Hf Hm). reflexivity.
 Qed.
 
+Lemma macrobody_flag_stops_finish cfg t cells k e :
+  skip_bc cfg = false ->
+  In (k, e) t -> e_flag e <> "" -> (1 < e_mcnp e)%nat ->
+  exists err, finish cfg t cells = Err err.
+Proof.
+  intros Hs Hin Hf Hm. unfold finish.
+  destruct (geometry (negb (skip_dedup cfg)) t cells) as [surfs|x]; [|eauto].
+  rewrite Hs, (macrobody_flag_rejected t k e Hin Hf Hm). eauto.
+Qed.
+
 Theorem macrobody_flag_stops_run cfg cards cells t k e :
   skip_bc cfg = false -> parse_cards cards [] = Ok t ->
   In (k, e) t -> e_flag e <> "" -> (1 < e_mcnp e)%nat ->
   exists err, run cfg cards cells = Err err.
 Proof.
   intros Hs Hp Hin Hf Hm. unfold run. rewrite Hp.
-  destruct (geometry (negb (skip_dedup cfg)) t cells) as [surfs|x]; [|eauto].
-  rewrite Hs, (macrobody_flag_rejected t k e Hin Hf Hm). eauto.
+  eapply macrobody_flag_stops_finish; eauto.
 Qed.
 
 (* the stale-variable quirk of conversionBoundCond *)
@@ -594,7 +603,31 @@ Proof.
     inversion H1; subst. assumption.
 Qed.
 
-(* the main statement, under the guard the code needs *)
+(* the main statement, under the guard the code needs, for any complete
+   surface dictionary with distinct keys *)
+Lemma finish_designates cfg t cells surfs bcs k e :
+  skip_bc cfg = false -> NoDup (map fst t) ->
+  finish cfg t cells = Ok (surfs, bcs) ->
+  In (k, e) t -> (e_flag e = "*" \/ e_flag e = "+") ->
+  (exists c, In c cells /\ survives (negb (skip_dedup cfg)) (number_items t) c /\ bounds c k) ->
+  (skip_dedup cfg = true \/ smallest_dup (number_items t) k) ->
+  In (kind_of (e_flag e), k) bcs /\ In (k, e_first e) surfs.
+Proof.
+  intros Hs Hnd Hrun Hin Hf [c [Hc [Hsv Hb]]] Hg.
+  unfold finish in Hrun.
+  destruct (geometry (negb (skip_dedup cfg)) t cells) as [surfs'|] eqn:Egeo; [|discriminate].
+  rewrite Hs in Hrun. destruct (bc_entries t) as [bcs'|] eqn:Ebc; [|discriminate].
+  inversion Hrun; subst surfs' bcs'. clear Hrun.
+  split.
+  - destruct (bc_kind t bcs k e Ebc Hin) as [H1 [H2 _]].
+    destruct Hf as [Hf|Hf]; rewrite Hf; cbn; auto.
+  - apply (written_surfaces_exact _ _ _ _ k (e_first e) Egeo).
+    pose proof (number_items_get t k e Hnd Hin) as Hd. split; [assumption|].
+    exists c, k. repeat split; auto.
+    apply (repr_of_self _ _ _ _ Hd). destruct Hg as [Hg|Hg]; [left|right; assumption].
+    rewrite Hg. reflexivity.
+Qed.
+
 Theorem bc_designates_present_same_locus cfg cards cells t surfs bcs k e :
   skip_bc cfg = false ->
   parse_cards cards [] = Ok t ->
@@ -604,20 +637,8 @@ Theorem bc_designates_present_same_locus cfg cards cells t surfs bcs k e :
   (skip_dedup cfg = true \/ smallest_dup (number_items t) k) ->
   In (kind_of (e_flag e), k) bcs /\ In (k, e_first e) surfs.
 Proof.
-  intros Hs Hp Hrun Hin Hf [c [Hc [Hsv Hb]]] Hg.
-  unfold run in Hrun. rewrite Hp in Hrun.
-  destruct (geometry (negb (skip_dedup cfg)) t cells) as [surfs'|] eqn:Egeo; [|discriminate].
-  rewrite Hs in Hrun. destruct (bc_entries t) as [bcs'|] eqn:Ebc; [|discriminate].
-  inversion Hrun; subst surfs' bcs'. clear Hrun.
-  pose proof (parsed_keys_distinct _ _ Hp) as Hnd.
-  split.
-  - destruct (bc_kind t bcs k e Ebc Hin) as [H1 [H2 _]].
-    destruct Hf as [Hf|Hf]; rewrite Hf; cbn; auto.
-  - apply (written_surfaces_exact _ _ _ _ k (e_first e) Egeo).
-    pose proof (number_items_get t k e Hnd Hin) as Hd. split; [assumption|].
-    exists c, k. repeat split; auto.
-    apply (repr_of_self _ _ _ _ Hd). destruct Hg as [Hg|Hg]; [left|right; assumption].
-    rewrite Hg. reflexivity.
+  intros Hs Hp Hrun. unfold run in Hrun. rewrite Hp in Hrun.
+  eapply finish_designates; eauto. eapply parsed_keys_distinct; eauto.
 Qed.
 
 (* ---- the statement is false without the guard --------------------------- *)
